@@ -17,6 +17,10 @@ import (
 func runProg(c *Ctx, p *Prog, ck ProgChecks, sigPrefix string) (*Runner, bool) {
 	r := NewRunner(p)
 	r.Checks = ck
+	if ck.Trace {
+		r.Tracer = attachTracer(c, r)
+		defer UninstallSink()
+	}
 	var msg string
 	var failAt int
 	r.Fail = func(sig, m string, at int) { msg, failAt = m, at }
@@ -195,8 +199,8 @@ func hasTables(r *Runner) bool {
 func init() {
 	Registry["C01"] = func(c *Ctx) {
 		runPlan(c, progPlan{
-			weights: DefaultWeights, checks: ProgChecks{Structure: false},
-			nprogs: [2]int{60, 2500}, nops: 300, cmps: gen.CmpIDs,
+			weights: DefaultWeights, checks: ProgChecks{Trace: true},
+			nprogs: [2]int{400, 4000}, nops: 300, cmps: gen.CmpIDs,
 			nontriv: func(r *Runner) bool { return r.Stats["get"] > 5 && r.Stats["put"] > 20 },
 			rule:    "random single-client programs (put/delete/batch/large batch/get/has/snapshots/iterators/CompactRange/reopen/transactions) under random layout options and the five comparers; plain-map oracle after every read, full scan after reopen and at the end; non-trivial = ≥ 20 puts and > 5 gets; distinct by (options, length, middle op)",
 		})
@@ -206,7 +210,7 @@ func init() {
 		w.Snap, w.SnapGet, w.SnapRel, w.Iter, w.Compact = 10, 16, 3, 14, 6
 		w.HeldIters = true
 		runPlan(c, progPlan{
-			weights: w, checks: ProgChecks{}, nprogs: [2]int{50, 2000}, nops: 320, cmps: []string{"bytewise", "reverse", "bytewise", "lenfirst"},
+			weights: w, checks: ProgChecks{Trace: true}, nprogs: [2]int{400, 4000}, nops: 320, cmps: []string{"bytewise", "reverse", "bytewise", "lenfirst"},
 			nontriv: func(r *Runner) bool { return r.Stats["snapget"] > 5 && r.Stats["snap"] > 1 },
 			rule:    "programs biased to many simultaneously live snapshots and long-held iterators interleaved with writes, deletes, flushes (tiny buffers) and manual/automatic compactions; every snapshot/iterator read is compared with a copy of the plain map taken at creation; held iterators are re-walked after later compactions; non-trivial = > 1 snapshot and > 5 snapshot reads",
 		})
@@ -215,7 +219,7 @@ func init() {
 		w := DefaultWeights
 		w.Compact, w.Reopen, w.Tx, w.BigWrite = 6, 3, 4, 2
 		runPlan(c, progPlan{
-			weights: w, checks: ProgChecks{Structure: true}, nprogs: [2]int{40, 1500}, nops: 300, cmps: gen.CmpIDs,
+			weights: w, checks: ProgChecks{Structure: true, Trace: true}, nprogs: [2]int{300, 3000}, nops: 300, cmps: gen.CmpIDs,
 			nontriv: hasTables,
 			rule:    "programs with frequent flushes, automatic/seek/manual compactions, trivial moves, large-batch transaction commits and reopen under the five comparers; after every mutating call the live version is dumped (verif export) and every table is read back: file present with recorded size, entries strictly ordered, recorded bounds exact, levels ≥ 1 ordered and user-key disjoint, shallower strictly newer per user key; non-trivial = tables existed",
 		})
@@ -224,7 +228,7 @@ func init() {
 		w := DefaultWeights
 		w.Get, w.Iter = 24, 10
 		runPlan(c, progPlan{
-			weights: w, poison: true, checks: ProgChecks{}, nprogs: [2]int{48, 2000}, nops: 250, cmps: []string{"bytewise"},
+			weights: w, poison: true, checks: ProgChecks{}, nprogs: [2]int{300, 3000}, nops: 250, cmps: []string{"bytewise"},
 			mutate: func(r *rng.R, o *gen.Opts) {
 				// enumerate the configuration lattice of the property: pool × cache × compression
 				x := r.Intn(8)
@@ -242,7 +246,7 @@ func init() {
 	}
 	Registry["C16"] = func(c *Ctx) {
 		runPlan(c, progPlan{
-			weights: DefaultWeights, checks: ProgChecks{}, nprogs: [2]int{30, 800}, nops: 260, cmps: []string{"bytewise", "bytewise", "reverse"},
+			weights: DefaultWeights, checks: ProgChecks{}, nprogs: [2]int{100, 1000}, nops: 260, cmps: []string{"bytewise", "bytewise", "reverse"},
 			mutate: func(r *rng.R, o *gen.Opts) { o.FilterBits = 0 },
 			variants: func(p *Prog) []*Prog {
 				var out []*Prog
